@@ -124,6 +124,7 @@ class MultiAgentTrajectoryExporter:
             previous_state,
             executed_actions,
             allow_inapplicable_actions=allow_inapplicable_actions,
+            problem_objects=problem_objects,
         )
         return MultiAgentTrajectoryTriplet(
             previous_state=previous_state, ops=operators, next_state=next_state
